@@ -330,7 +330,7 @@ def bad_record(rng, kind=None):
         return avp_rec(0, be(c, 2)), kind
     if kind == 'vendor':
         v = rng.choice([1, 9, 311, 65535, rng.randrange(1, 65536)])
-        return avp_rec(rng.randrange(0, 45), rbytes(rng, rng.randrange(0, 20)), vendor=v), kind
+        return avp_rec(rng.randrange(0, 45), rbytes(rng, rng.randrange(0, 20)), vendor=v, h=rng.choice([0, 0, 1])), kind
     if kind == 'bad_utf8':
         t = rng.choice([8, 21, 22, 23])
         bad = rng.choice([b'\xff', b'\xc0\x80', b'\xe0\x9f\x80', b'\xed\xa0\x80', b'\xf0\x8f\x80\x80',
